@@ -43,67 +43,90 @@ DEFAULTS_SCHEMA = '''type Query { x: Int }
 input Recipient { email: String! n: Int }
 input Message { to: Recipient! text: String urgent: Boolean }
 input Awkward { type: Int camelCase: String loop: Boolean }
+input Tree { v: Int next: Tree }
+input snake_in { a: Int }
 '''
 
 
 def defaults_part(ck, workdir, selftest=False):
-    """growth: Variables::default_*() against Defaults.tla"""
+    """growth: Variables::default_*() against Defaults.tla (one operation per base type x normalization)"""
     res = vlib.run_tlc("MC_C04d", "MC_C04d.cfg", timeout=300)
     ck.add_tlc(res)
     vlib.tlc_must_pass(res)
-    cases = sorted(res["cases"]["DEFAULT"], key=lambda c: json.dumps(c, sort_keys=True))
+    allcases = sorted(res["cases"]["DEFAULT"], key=lambda c: json.dumps(c, sort_keys=True))
     sp = os.path.join(workdir, "defaults.graphql")
     vlib.write_if_changed(sp, DEFAULTS_SCHEMA)
     q = lambda t: t.replace("$q", '"')
-    decls = ["$d%d: %s%s = %s" % (i, c["base"], "!" if c["nonnull"] else "", q(c["text"])) for i, c in enumerate(cases)]
-    query = "query MyOp(%s) {\n  x\n}\n" % ", ".join(decls)
-    rs, _ = vlib.gqlv("gen", [{"id": "d", "schema_path": sp, "query": query, "want_tokens": True,
-                               "options": {"mode": "cli", "module_visibility": "pub", "variables_derives": "Deserialize, Debug"}}])
-    ck.count()
-    if rs[0]["status"] != "ok":
-        ck.violation("defaults-gen", {"query": query, "observed": rs[0]}, "C04(defaults): generation failed: %s" % rs[0].get("msg"), case_key="defaults-gen")
-        return
-    helper = "\npub fn verif_defaults() -> serde_json::Value { serde_json::json!({%s}) }\n" % ", ".join(
-        '"d%d": my_op::Variables::default_d%d()' % (i, i) for i in range(len(cases)))
-    cons = Consumers("c04d", nbins=1)
-    cons.add_case("defaults_case", PRELUDE + rs[0]["tokens"] + helper, "MyOp", kinds=("defaults", "vars"))
+    groups = {}
+    for c in allcases:
+        groups.setdefault(c["base"], []).append(c)
+    jobs, meta = [], {}
+    for base, cases in sorted(groups.items()):
+        decls = ["$d%d: %s%s = %s" % (i, c["base"], "!" if c["nonnull"] else "", q(c["text"])) for i, c in enumerate(cases)]
+        query = "query MyOp(%s) {\n  x\n}\n" % ", ".join(decls)
+        for norm in ("none", "rust"):
+            tag = "def_%s_%s" % (base.lower(), norm)
+            jobs.append({"id": tag, "schema_path": sp, "query": query, "want_tokens": True,
+                         "options": {"mode": "cli", "module_visibility": "pub", "normalization": norm,
+                                     "variables_derives": "Deserialize, Debug"}})
+            meta[tag] = (base, norm, cases, decls, query)
+    rs, _ = vlib.gqlv("gen", jobs)
+    cons = Consumers("c04d", nbins=4)
+    for r in rs:
+        base, norm, cases, decls, query = meta[r["id"]]
+        ck.count()
+        if r["status"] != "ok":
+            ck.violation("defaults-gen-%s" % r["id"], {"query": query, "normalization": norm, "observed": r},
+                         "C04(defaults): generation failed for defaults of %s: %s" % (base, r.get("msg")), case_key="defaults-gen|%s" % base)
+            continue
+        helper = "\npub fn verif_defaults() -> serde_json::Value { serde_json::json!({%s}) }\n" % ", ".join(
+            '"d%d": my_op::Variables::default_d%d()' % (i, i) for i in range(len(cases)))
+        cons.add_case(r["id"], PRELUDE + r["tokens"] + helper, "MyOp", kinds=("defaults", "vars"))
     errs = cons.build()
-    if errs:
-        ck.violation("defaults-compile", {"query": query, "errors": list(errs.values())[0][:4]},
-                     "C04(defaults): default value functions do not compile: %s" % list(errs.values())[0][0][:200], case_key="defaults-compile")
-        return
-    o = cons.run([{"id": "d", "case": "defaults_case", "kind": "defaults", "input": None}]).get("d", {})
-    wants = [json.loads(json.dumps(payload.decode(c["expect"])).replace("$q", '\\"')) for c in cases]
-    # a default value does not make a non-null variable nullable: `$d: T! = v` still cannot hold null
-    vj = [{"id": "all", "case": "defaults_case", "kind": "vars", "input": {"d%d" % k: w for k, w in enumerate(wants)}}]
-    for i, c in enumerate(cases):
-        if c["nonnull"]:
-            vj.append({"id": "null%d" % i, "case": "defaults_case", "kind": "vars",
-                       "input": {"d%d" % k: (None if k == i else w) for k, w in enumerate(wants)}})
-    vo = cons.run(vj)
-    ck.count()
-    if "ok" not in vo.get("all", {}) or vo["all"]["ok"].get("variables") != vj[0]["input"]:
-        ck.violation("defaults-roundtrip", {"assignment": vj[0]["input"], "observed": vo.get("all")},
-                     "C04(defaults): the default values themselves are not expressible as Variables / do not round-trip: %s" % json.dumps(vo.get("all"))[:300],
-                     case_key="defaults-roundtrip")
-    for j in vj[1:]:
+    first = True
+    for tag, (base, norm, cases, decls, query) in meta.items():
+        if tag not in cons.cases:
+            continue
+        if tag in errs:
+            ck.count()
+            ck.violation("defaults-compile-%s" % tag, {"query": query, "normalization": norm, "errors": errs[tag][:4]},
+                         "C04(defaults): default value functions of %s variables (normalization %s) do not compile: %s\n%s" % (
+                             base, norm, errs[tag][0][:200], query), case_key="defaults-compile|%s|%s" % (base, norm), signature=errs[tag][0][:80])
+            continue
+        wants = [json.loads(json.dumps(payload.decode(c["expect"])).replace("$q", '\\"')) for c in cases]
+        # a default value does not make a non-null variable nullable: `$d: T! = v` still cannot hold null
+        vj = [{"id": "all", "case": tag, "kind": "vars", "input": {"d%d" % k: w for k, w in enumerate(wants)}},
+              {"id": "d", "case": tag, "kind": "defaults", "input": None}]
+        for i, c in enumerate(cases):
+            if c["nonnull"]:
+                vj.append({"id": "null%d" % i, "case": tag, "kind": "vars",
+                           "input": {"d%d" % k: (None if k == i else w) for k, w in enumerate(wants)}})
+        vo = cons.run(vj)
         ck.count()
-        o2 = vo.get(j["id"], {})
-        i = int(j["id"][4:])
-        if "ok" in o2 and (o2["ok"].get("variables") or {}).get("d%d" % i, "absent") is None:
-            ck.violation("default-null-%d" % i, {"declaration": decls[i], "assignment": j["input"], "observed": o2},
-                         "C04(defaults): `%s` is non-null, yet Variables can hold null there and sends `\"d%d\": null`" % (decls[i], i),
-                         case_key="default|badnull")
-    for i, c in enumerate(cases):
-        ck.count()
-        want = wants[i]
-        if selftest and i == 0:
-            want = "selftest"
-        got = o.get("d%d" % i, "<missing>") if isinstance(o, dict) else "<no result: %s>" % o
-        if got != want:
-            ck.violation("default-%d" % i, {"declaration": decls[i], "expected": want, "observed": got},
-                         "C04(defaults): `%s`: default_d%d() is %s, expected %s" % (decls[i], i, json.dumps(got)[:120], json.dumps(want)[:120]),
-                         case_key="default|%s" % c["base"])
+        if "ok" not in vo.get("all", {}) or vo["all"]["ok"].get("variables") != vj[0]["input"]:
+            ck.violation("defaults-roundtrip-%s" % tag, {"assignment": vj[0]["input"], "observed": vo.get("all")},
+                         "C04(defaults): the default values of %s are not expressible as Variables / do not round-trip: %s" % (base, json.dumps(vo.get("all"))[:300]),
+                         case_key="defaults-roundtrip|%s" % base)
+        for j in vj[2:]:
+            ck.count()
+            o2 = vo.get(j["id"], {})
+            i = int(j["id"][4:])
+            if "ok" in o2 and (o2["ok"].get("variables") or {}).get("d%d" % i, "absent") is None:
+                ck.violation("default-null-%s-%d" % (tag, i), {"declaration": decls[i], "assignment": j["input"], "observed": o2},
+                             "C04(defaults): `%s` is non-null, yet Variables can hold null there and sends `\"d%d\": null`" % (decls[i], i),
+                             case_key="default|badnull")
+        o = vo.get("d", {})
+        for i, c in enumerate(cases):
+            ck.count()
+            want = wants[i]
+            if selftest and first:
+                want, first = "selftest", False
+            got = o.get("d%d" % i, "<missing>") if isinstance(o, dict) else "<no result: %s>" % o
+            if got != want:
+                ck.violation("default-%s-%d" % (tag, i), {"declaration": decls[i], "normalization": norm, "expected": want, "observed": got},
+                             "C04(defaults): `%s` (normalization %s): default_d%d() is %s, expected %s" % (
+                                 decls[i], norm, i, json.dumps(got)[:120], json.dumps(want)[:120]),
+                             case_key="default|%s" % c["base"])
 
 
 def main(tier, replay=None, selftest=False):
